@@ -94,13 +94,14 @@ def examine(folder, table):
 
 
 def run_backup(job):
-    script_name, placement, incremental, index = job
+    script_name, placement, incremental, index = job[:4]
+    long_open_source = len(job) > 4 and job[4]
     common.import_lib()
     from disk_objectstore import CompressMode, Container, backup_utils  # pylint: disable=import-outside-toplevel
 
     table = contents()
     steps = SCRIPTS[script_name]
-    line = {'script': script_name, 'placement': list(placement), 'incremental': incremental}
+    line = {'script': script_name, 'placement': list(placement), 'incremental': incremental, 'long_open_source': bool(long_open_source)}
     with common.scratch('bk') as work:
         folder = os.path.join(work, 'c')
         before = build(folder)
@@ -157,6 +158,10 @@ def run_backup(job):
         try:
             manager = SteppedManager(dest)
             source = Container(folder)
+            if long_open_source:
+                # the backup is driven through a long-open handle that has queried the index before
+                source.has_objects([hashlib.sha256(table['k1']).hexdigest()])
+                source.count_objects()
             prev = None
             if incremental:
                 prev = os.path.join(dest, 'b0')
@@ -209,7 +214,7 @@ def check_C15(report: common.Report):
         for incremental in (False, True):
             subset = every if (thorough or not incremental) else rng.sample(every, min(25, len(every)))
             for placement in subset:
-                jobs.append((name, placement, incremental, len(jobs)))
+                jobs.append((name, placement, incremental, len(jobs), len(jobs) % 2 == 1))
     lines = common.pmap(run_backup, jobs)
     with common.scratch('bkm') as work:
         trace_file = os.path.join(work, 'backup.ndjson')
@@ -239,7 +244,8 @@ def check_C15(report: common.Report):
         seen.add(key)
         bad = [v for v in line['views'] if v['cls'] not in ('OK', 'NotExistent') or (v['k'] in line['before'] and v['cls'] != 'OK')]
         report.violation({'invariant': inv, 'script': line['script'], 'incremental': line['incremental']},
-                         {'driver': 'backup', 'script': line['script'], 'placement': line['placement'], 'incremental': line['incremental']},
+                         {'driver': 'backup', 'script': line['script'], 'placement': line['placement'], 'incremental': line['incremental'],
+                          'long_open_source': line['long_open_source']},
                          f"{inv}: backup with steps {SCRIPTS[line['script']]} placed at {line['placement']} "
                          f"(incremental={line['incremental']}): val={line['val']} bad={bad} listed={line['listed']} "
                          f"side files={line.get('extra_files')} obs={json.dumps(line['obs'])[:500]}")
@@ -261,6 +267,6 @@ def check_C15(report: common.Report):
 
 def replay(data) -> int:
     rep = data['replay']
-    line = run_backup((rep['script'], rep['placement'], rep['incremental'], 0))
+    line = run_backup((rep['script'], rep['placement'], rep['incremental'], 0, rep.get('long_open_source', False)))
     print({k: v for k, v in line.items() if k != 'obs'})
     return 0
